@@ -325,6 +325,10 @@ impl<'a, 'tcx> Cx<'a, 'tcx> {
         match c.const_ {
             Const::Unevaluated(uv, _) => {
                 fields.push(("uneval", s(path_of(tcx, uv.def))));
+                // `<T as Trait>::CONST`: the Self type of the item's arguments (a type parameter inside generic code)
+                if let Some(t0) = uv.args.types().next() {
+                    fields.push(("uneval_self", s(ty_str(tcx, t0))));
+                }
                 if uv.promoted.is_some() {
                     fields.push(("promoted", n(uv.promoted.unwrap().index())));
                 }
@@ -715,6 +719,9 @@ fn dump_body<'tcx>(
     if matches!(kind, DefKind::Fn | DefKind::AssocFn) {
         f.push(("name", s(tcx.item_name(did).to_string())));
         f.push(("vis_pub", J::Bool(tcx.visibility(did).is_public())));
+        // the item's type parameters (parents' first), in the order in which a call's type arguments are listed
+        let ids = ty::GenericArgs::identity_for_item(tcx, did);
+        f.push(("generics", J::Arr(ids.types().map(|t| s(ty_str(tcx, t))).collect())));
     }
     // locals
     let mut names: Vec<Option<String>> = vec![None; body.local_decls.len()];
